@@ -27,8 +27,12 @@ def hint_cases(prop, tier, seed):
     seqish = re.compile(r'List|list|Sequence|Tuple\.\.\.|tuple\.\.\.|Iterable|Container|Reversible|Collection')
     for name, h in hs:
         for ckw in confs:
-            if tier == 'quick' and ckw.get('is_random') is False and not seqish.search(name):
+            if ckw.get('is_random') is False and not seqish.search(name):
                 continue     # is_random only changes how sequences are indexed
+            if ckw.get('is_pep484_tower') and not re.search(r'float|complex', name):
+                continue     # the tower only reinterprets float / complex
+            if ckw.get('strategy') == 'On' and (hash(name) % 4):
+                continue     # On generates the same checker code as O1 today: a quarter is compared
             cases.append((name, h, ckw, {'gen': 'hint_set', 'tier': tier, 'seed': seed, 'name': name}))
     return cases
 
